@@ -6,6 +6,8 @@
 package main
 
 import (
+	"crypto/sha256"
+	"encoding/hex"
 	"encoding/json"
 	"flag"
 	"fmt"
@@ -16,6 +18,7 @@ import (
 	"strconv"
 	"strings"
 	"sync"
+	"syscall"
 	"time"
 
 	"govc/internal/smt"
@@ -107,6 +110,19 @@ func loadBaseline() map[string][]string {
 		json.Unmarshal(data, &m)
 	}
 	return m
+}
+
+// lockVerif takes an exclusive lock for updating the baseline files.
+func lockVerif() func() {
+	f, err := os.OpenFile(filepath.Join(verifDir, ".baseline.lock"), os.O_CREATE|os.O_RDWR, 0o644)
+	if err != nil {
+		return func() {}
+	}
+	syscall.Flock(int(f.Fd()), syscall.LOCK_EX)
+	return func() {
+		syscall.Flock(int(f.Fd()), syscall.LOCK_UN)
+		f.Close()
+	}
 }
 
 func loadSkip() {
@@ -316,7 +332,13 @@ func solveAll(g *genOutput, obls []*vc.Obligation, timeout time.Duration) []oblR
 				if (o.Kind == "safety" || o.Kind == "pre") && to > 6*time.Second {
 					to = 6 * time.Second
 				}
-				r := smt.Solve(g.prelude+rev+o.Script, to)
+				full := g.prelude + rev + o.Script
+				if cr, ok := cacheGet(full, to); ok {
+					res[i] = oblResult{o, cr}
+					continue
+				}
+				r := smt.Solve(full, to)
+				cachePut(full, to, r)
 				if r.Status != "unsat" && r.Status != "sat" && o.Relaxed != "" {
 					// no verdict with quantifiers: look for a candidate
 					// counterexample in the quantifier-free relaxation
@@ -336,6 +358,45 @@ func solveAll(g *genOutput, obls []*vc.Obligation, timeout time.Duration) []oblR
 	close(ch)
 	wg.Wait()
 	return res
+}
+
+// Result cache for `govc baseline` only (GOVC_CACHE=<dir>): the verdict of a
+// script is reused when exactly the same script (prelude included) is solved
+// again with the same time-out, which makes the fixpoint rounds of a rebaseline
+// cheap. `govc check` never uses it: every registered run solves everything.
+func cacheFile(script string, to time.Duration) string {
+	dir := os.Getenv("GOVC_CACHE")
+	if dir == "" {
+		return ""
+	}
+	h := sha256.Sum256([]byte(fmt.Sprintf("%d\n%s", to/time.Millisecond, script)))
+	return filepath.Join(dir, hex.EncodeToString(h[:]))
+}
+
+func cacheGet(script string, to time.Duration) (smt.Result, bool) {
+	f := cacheFile(script, to)
+	if f == "" {
+		return smt.Result{}, false
+	}
+	data, err := os.ReadFile(f)
+	if err != nil {
+		return smt.Result{}, false
+	}
+	var r smt.Result
+	if json.Unmarshal(data, &r) != nil {
+		return smt.Result{}, false
+	}
+	return r, true
+}
+
+func cachePut(script string, to time.Duration, r smt.Result) {
+	f := cacheFile(script, to)
+	if f == "" {
+		return
+	}
+	os.MkdirAll(filepath.Dir(f), 0o755)
+	data, _ := json.Marshal(smt.Result{Status: r.Status, Solver: r.Solver, Time: r.Time})
+	os.WriteFile(f, data, 0o644)
 }
 
 func cmdDump(args []string) int {
@@ -373,7 +434,7 @@ func cmdBaseline(args []string) int {
 	fs := flag.NewFlagSet("baseline", flag.ExitOnError)
 	write := fs.Bool("write", false, "write obligations.baseline.json")
 	prop := fs.String("property", "", "only this property")
-	maxT := fs.Float64("max", 3.0, "admit only obligations discharged within this many seconds")
+	maxT := fs.Float64("max", 5.0, "admit only obligations discharged within this many seconds")
 	fs.Parse(args)
 	cfg, err := loadConfig()
 	if err != nil {
@@ -410,9 +471,11 @@ func cmdBaseline(args []string) int {
 				if ok && r.R.Time <= *maxT {
 					names = append(names, r.O.Name)
 					tag = "ok"
-				} else if r.O.Kind == "post" && !vc.SkipClauses[r.O.Name] {
-					// an unproved postcondition must not be assumed by callers:
-					// exclude it and verify again (greatest fixpoint)
+				} else if (r.O.Kind == "post" || r.O.Kind == "pre" || r.O.Kind == "inv.entry" || r.O.Kind == "inv.step") && !vc.SkipClauses[r.O.Name] {
+					// an unproved postcondition must not be assumed by callers, an
+					// unproved precondition invalidates the callee's postconditions
+					// at that call, an unproved invariant must not be assumed at
+					// the loop head: exclude it and verify again (greatest fixpoint)
 					vc.SkipClauses[r.O.Name] = true
 					grew = true
 				}
@@ -421,17 +484,27 @@ func cmdBaseline(args []string) int {
 			sort.Strings(names)
 			base[p] = names
 			fmt.Printf("%s: round %d: %d obligations generated, %d admitted to baseline\n", p, round, len(res), len(names))
-			if !grew || round >= 6 {
+			if !grew || round >= 15 {
 				break
 			}
 			fmt.Printf("%s: unproved postconditions found; verifying again without assuming them\n", p)
 		}
 	}
 	if *write {
+		// several baseline runs (one per property) may finish concurrently:
+		// merge into the files under a lock
+		unlock := lockVerif()
+		defer unlock()
+		loadSkip() // union with what other runs have added meanwhile
 		if err := saveSkip(); err != nil {
 			fmt.Fprintln(os.Stderr, "ERROR", err)
 			return 2
 		}
+		disk := loadBaseline()
+		for _, p := range props {
+			disk[p] = base[p]
+		}
+		base = disk
 		data, _ := json.MarshalIndent(base, "", " ")
 		if err := os.WriteFile(filepath.Join(verifDir, "obligations.baseline.json"), append(data, '\n'), 0o644); err != nil {
 			fmt.Fprintln(os.Stderr, "ERROR", err)
@@ -442,6 +515,7 @@ func cmdBaseline(args []string) int {
 }
 
 func cmdCheck(args []string) int {
+	os.Unsetenv("GOVC_CACHE") // a check always solves every obligation
 	fs := flag.NewFlagSet("check", flag.ExitOnError)
 	prop := fs.String("property", "", "property id")
 	tier := fs.String("tier", "quick", "quick|thorough")
@@ -511,7 +585,7 @@ func cmdCheck(args []string) int {
 		}
 		return 2
 	}
-	timeout := 10 * time.Second
+	timeout := 20 * time.Second // baseline obligations discharge in <= 5 s on an idle machine
 	if *tier == "thorough" {
 		timeout = 60 * time.Second
 	}
